@@ -211,7 +211,8 @@ func checkC14(r *harness.Run) harness.Coverage {
 		}
 	})
 	// (4) unquoted identifiers
-	classAlpha := []string{"a", "Z", "_", "0", "9", "-", ".", "\u0080", "é", " ", "z", "A", "@", "`", "{"}
+	// incl. runes >= U+0100 whose low byte is an ASCII letter, digit or underscore (あ 0x42, Ł 0x41, š 0x61, 丰 0x30, ş 0x5F)
+	classAlpha := []string{"a", "Z", "_", "0", "9", "-", ".", "\u0080", "é", " ", "z", "A", "@", "`", "{", "\u3042", "\u0141", "\u0161", "\u4e30", "\u015f", "\U00010041"}
 	var idStrs []string
 	stringsOver(classAlpha, 3, func(s string) {
 		if s != "" {
